@@ -173,8 +173,8 @@ func (b *Builder) spendableSC(v2 bool) []scCand {
 	}
 	if b.AllowEphemeral {
 		for _, ep := range b.eph {
-			if ep.sc == nil || b.usedSC[ep.sc.ID] || ep.sc.MaturityHeight > b.Child {
-				continue
+			if ep.sc == nil || b.usedSC[ep.sc.ID] || ep.sc.MaturityHeight > b.Child || (ep.v2 && !v2) {
+				continue // (v1 transactions precede all v2 transactions of a block)
 			}
 			l, ok := b.W.Locks[ep.sc.SiacoinOutput.Address]
 			if !ok || !l.Spendable(v2, b.Child, b.Median) {
@@ -289,6 +289,9 @@ func (b *Builder) drawFees(name string, avail *big.Int) ([]types.Currency, *big.
 
 // V1Pay builds a plain v1 payment.
 func (b *Builder) V1Pay() bool {
+	if !b.v1Allowed() {
+		return false
+	}
 	picked, total, ok := b.pickInputs("v1pay", false, big.NewInt(2), 3)
 	if !ok {
 		return false
@@ -337,7 +340,7 @@ func (b *Builder) spendableSF(v2 bool) []sfCand {
 	if b.AllowEphemeral {
 		for _, ep := range b.eph {
 			// v2 transactions may spend ephemeral siafund outputs only below the fix height
-			if ep.sf != nil && (!v2 || b.Child < b.C.Net.HardforkV2.EphemeralOutputHeight) {
+			if ep.sf != nil && (v2 || !ep.v2) && (!v2 || b.Child < b.C.Net.HardforkV2.EphemeralOutputHeight) {
 				consider(*ep.sf, true)
 			}
 		}
@@ -347,6 +350,9 @@ func (b *Builder) spendableSF(v2 bool) []sfCand {
 
 // V1Siafunds moves siafunds in a v1 transaction (and claims the accrued tax).
 func (b *Builder) V1Siafunds() bool {
+	if !b.v1Allowed() {
+		return false
+	}
 	cands := b.spendableSF(false)
 	if len(cands) == 0 {
 		return false
@@ -409,6 +415,9 @@ func (b *Builder) drawFile(name string) ([]byte, types.Hash256) {
 
 // V1Form creates a v1 file contract.
 func (b *Builder) V1Form() bool {
+	if !b.v1Allowed() {
+		return false
+	}
 	t := b.T
 	payout := new(big.Int).Mul(big.NewInt(int64(rapid.IntRange(1, 1_000_000).Draw(t, "payoutMant"))), new(big.Int).Exp(big.NewInt(10), big.NewInt(int64(rapid.IntRange(4, 26).Draw(t, "payoutExp"))), nil))
 	payout.Add(payout, big.NewInt(int64(rapid.IntRange(0, 20000).Draw(t, "payoutDust"))))
@@ -461,6 +470,9 @@ func (b *Builder) V1Form() bool {
 
 // V1Revise revises a live v1 contract whose window has not opened.
 func (b *Builder) V1Revise() bool {
+	if !b.v1Allowed() {
+		return false
+	}
 	t := b.T
 	var cands []types.FileContractElement
 	for _, e := range b.C.Store.SortedFC() {
@@ -554,6 +566,9 @@ func EraBHonestProofFails(filesize uint64, idx uint64) bool {
 
 // V1Prove submits a storage proof for a live contract whose window is open.
 func (b *Builder) V1Prove() bool {
+	if !b.v1Allowed() {
+		return false
+	}
 	var cands []types.FileContractElement
 	for _, e := range b.C.Store.SortedFC() {
 		fc := e.FileContract
@@ -596,6 +611,9 @@ func (b *Builder) V1Prove() bool {
 
 // V1Foundation updates the Foundation addresses via arbitrary data.
 func (b *Builder) V1Foundation() bool {
+	if !b.v1Allowed() {
+		return false
+	}
 	if b.Child < b.C.Net.HardforkFoundation.Height {
 		return false
 	}
@@ -683,6 +701,9 @@ func (b *Builder) drawFeeV2(name string) *big.Int {
 
 // V2Pay builds a v2 payment.
 func (b *Builder) V2Pay() bool {
+	if !b.v2Allowed() {
+		return false
+	}
 	fee := b.drawFeeV2("v2pay")
 	picked, total, ok := b.pickInputs("v2pay", true, new(big.Int).Add(fee, big.NewInt(1)), 3)
 	if !ok {
@@ -705,6 +726,9 @@ func (b *Builder) V2Pay() bool {
 
 // V2Siafunds moves siafunds in a v2 transaction.
 func (b *Builder) V2Siafunds() bool {
+	if !b.v2Allowed() {
+		return false
+	}
 	cands := b.spendableSF(true)
 	if len(cands) == 0 {
 		return false
@@ -757,6 +781,9 @@ func (b *Builder) drawV2Contract(name string) types.V2FileContract {
 
 // V2Form creates a v2 contract.
 func (b *Builder) V2Form() bool {
+	if !b.v2Allowed() {
+		return false
+	}
 	fc := b.drawV2Contract("v2form")
 	tax := ref.TaxV2(fc.RenterOutput.Value, fc.HostOutput.Value)
 	fee := b.drawFeeV2("v2form")
@@ -795,6 +822,9 @@ func (b *Builder) liveV2(filter func(types.V2FileContractElement) bool) []types.
 
 // V2Revise revises a live v2 contract.
 func (b *Builder) V2Revise() bool {
+	if !b.v2Allowed() {
+		return false
+	}
 	t := b.T
 	cands := b.liveV2(func(e types.V2FileContractElement) bool {
 		return e.V2FileContract.ProofHeight >= b.Child && e.V2FileContract.RevisionNumber < types.MaxRevisionNumber-10
@@ -867,6 +897,9 @@ func (b *Builder) V2ProofFor(e types.V2FileContractElement) (types.V2FileContrac
 
 // V2Resolve resolves a live v2 contract by proof, expiration or renewal.
 func (b *Builder) V2Resolve() bool {
+	if !b.v2Allowed() {
+		return false
+	}
 	t := b.T
 	kind := rapid.SampledFrom([]string{"proof", "expire", "renew"}).Draw(t, "v2resKind")
 	cands := b.liveV2(func(e types.V2FileContractElement) bool {
@@ -980,6 +1013,9 @@ func (b *Builder) V2Resolve() bool {
 
 // V2Attest adds attestations.
 func (b *Builder) V2Attest() bool {
+	if !b.v2Allowed() {
+		return false
+	}
 	t := b.T
 	var txn types.V2Transaction
 	n := rapid.IntRange(1, 2).Draw(t, "nAtt")
@@ -997,6 +1033,9 @@ func (b *Builder) V2Attest() bool {
 
 // V2Foundation changes the Foundation address in a v2 transaction.
 func (b *Builder) V2Foundation() bool {
+	if !b.v2Allowed() {
+		return false
+	}
 	var cand *scCand
 	for _, c := range b.spendableSC(true) {
 		if c.el.SiacoinOutput.Address == b.CS.FoundationManagementAddress && !c.el.SiacoinOutput.Value.IsZero() {
@@ -1126,3 +1165,126 @@ func (b *Builder) Finish(tsMode int, jitter int64) (types.Block, consensus.V1Blo
 }
 
 var _ = fmt.Sprint
+
+// ---------------------------------------------------------------------------------------
+// same-block scenarios the properties single out
+
+// lastV1Contract returns the id and terms of the v1 contract formed by the most recent v1
+// transaction of the block under construction, if that transaction formed one.
+func (b *Builder) lastV1Contract() (types.FileContractID, types.FileContract, bool) {
+	if len(b.V1) == 0 {
+		return types.FileContractID{}, types.FileContract{}, false
+	}
+	txn := &b.V1[len(b.V1)-1]
+	if len(txn.FileContracts) == 0 {
+		return types.FileContractID{}, types.FileContract{}, false
+	}
+	return txn.FileContractID(0), txn.FileContracts[0], true
+}
+
+// V1ReviseCreatedInBlock revises the contract formed by the previous transaction of this block.
+func (b *Builder) V1ReviseCreatedInBlock() bool {
+	if !b.v1Allowed() {
+		return false
+	}
+	id, fc, ok := b.lastV1Contract()
+	if !ok {
+		return false
+	}
+	l, ok := b.W.Locks[fc.UnlockHash]
+	if !ok || !l.Spendable(false, b.Child, b.Median) || fc.WindowStart < b.Child {
+		return false
+	}
+	rev := fc
+	rev.RevisionNumber = fc.RevisionNumber + uint64(rapid.IntRange(1, 3).Draw(b.T, "revCreatedInc"))
+	rev.ValidProofOutputs = append([]types.SiacoinOutput(nil), fc.ValidProofOutputs...)
+	if len(rev.ValidProofOutputs) >= 2 {
+		a := ref.Big(rev.ValidProofOutputs[0].Value)
+		d := new(big.Int).Quo(a, big.NewInt(int64(rapid.IntRange(1, 9).Draw(b.T, "revCreatedShift"))))
+		rev.ValidProofOutputs[0].Value = cur(new(big.Int).Sub(a, d))
+		rev.ValidProofOutputs[1].Value = cur(new(big.Int).Add(ref.Big(rev.ValidProofOutputs[1].Value), d))
+	}
+	var txn types.Transaction
+	txn.FileContractRevisions = []types.FileContractRevision{{ParentID: id, UnlockConditions: *l.UC, FileContract: rev}}
+	c := b.Exp.contract(id, false)
+	c.Revised, c.FinalRev = true, rev.RevisionNumber
+	b.label("v1-form+revise-same-block")
+	b.finishV1(txn)
+	return true
+}
+
+// V1ReviseThenProve revises a live contract whose window opens at the child height and
+// proves the revised contract in the next transaction of the same block.
+func (b *Builder) V1ReviseThenProve() bool {
+	if !b.v1Allowed() {
+		return false
+	}
+	if b.V1Era() != "C" {
+		return false
+	}
+	for _, e := range b.C.Store.SortedFC() {
+		fc := e.FileContract
+		l, ok := b.W.Locks[fc.UnlockHash]
+		if b.usedFC[e.ID] || !ok || !l.Spendable(false, b.Child, b.Median) || fc.WindowStart != b.Child || fc.RevisionNumber >= types.MaxRevisionNumber-5 {
+			continue
+		}
+		b.usedFC[e.ID] = true
+		rev := fc
+		rev.RevisionNumber++
+		data, root := b.drawFile("revProve")
+		if len(data) == 0 {
+			data = []byte{1, 2, 3}
+			root = types.Hash256(ref.FileRoot(data))
+			b.W.Files[root] = data
+		}
+		rev.Filesize, rev.FileMerkleRoot = uint64(len(data)), root
+		var txn types.Transaction
+		txn.FileContractRevisions = []types.FileContractRevision{{ParentID: e.ID, UnlockConditions: *l.UC, FileContract: rev}}
+		c := b.Exp.contract(e.ID, false)
+		c.Revised, c.FinalRev = true, rev.RevisionNumber
+		b.finishV1(txn)
+		re := e
+		re.FileContract = rev
+		ptxn, ok := b.V1ProofFor(re, b.CS.Index.ID)
+		if !ok {
+			return true
+		}
+		b.Exp.contract(e.ID, false).Resolved = "proof"
+		for i, o := range rev.ValidProofOutputs {
+			b.expectSC(e.ID.ValidOutputID(i), o, b.maturity(), "v1 valid proof output (revised in the same block)")
+		}
+		b.label("v1-revise+prove-same-block")
+		b.finishV1(ptxn)
+		return true
+	}
+	return false
+}
+
+// V1ProveRevisedInBlock is kept as an alias used by scenario tables.
+func (b *Builder) V1ProveRevisedInBlock() bool { return false }
+
+// V1FormThenProve forms a contract whose window opens at the child height and proves it at once.
+func (b *Builder) V1FormThenProve() bool {
+	if !b.v1Allowed() {
+		return false
+	}
+	if b.V1Era() != "C" || !b.V1Form() {
+		return false
+	}
+	id, fc, ok := b.lastV1Contract()
+	if !ok || fc.WindowStart != b.Child || fc.Filesize == 0 {
+		return false
+	}
+	e := types.FileContractElement{ID: id, FileContract: fc}
+	ptxn, ok := b.V1ProofFor(e, b.CS.Index.ID)
+	if !ok {
+		return false
+	}
+	b.Exp.contract(id, false).Resolved = "proof"
+	for i, o := range fc.ValidProofOutputs {
+		b.expectSC(id.ValidOutputID(i), o, b.maturity(), "v1 valid proof output (formed in the same block)")
+	}
+	b.label("v1-form+prove-same-block")
+	b.finishV1(ptxn)
+	return true
+}
